@@ -12,9 +12,9 @@ NODE_TYPES = ['LEGENDRE', 'EQUID', 'CHEBY-1', 'CHEBY-2', 'CHEBY-3', 'CHEBY-4']
 
 
 # ---------------------------------------------------------------------------------------------------------- workload
-def gen_config(r, allow_faults=True, fixed_step=False):
+def gen_config(r, allow_faults=True, fixed_step=False, allow_mass=False):
     """One configuration of the space the property quantifies over (swarm style)."""
-    kind = r.choice(['dahlquist', 'dahlquist', 'dahlquist_imex', 'heat', 'heat_forced', 'advection'])
+    kind = r.choice(['dahlquist', 'dahlquist', 'dahlquist_imex', 'heat', 'heat_forced', 'advection', 'mass' if allow_mass else 'dahlquist'])
     P = r.choice([1, 1, 2, 3, 4, 5, 8])
     nlevels = r.choice([1, 1, 2, 2, 3])
     M = r.randint(2, 5) if nlevels > 1 else r.randint(1, 5)
@@ -30,7 +30,17 @@ def gen_config(r, allow_faults=True, fixed_step=False):
     sw_params = {'quad_type': quad, 'node_type': node_type, 'initial_guess': r.choice(['spread', 'spread', 'copy', 'zero', 'random'])}
     transfer = None
     dt_scale = 1.0
-    if kind == 'dahlquist':
+    if kind == 'mass':
+        # harness-owned mass-matrix problem driving the real imex_1st_order_mass sweeper (single level, right node = end point)
+        nlevels, nodes = 1, [nodes[0]]
+        quad = 'RADAU-RIGHT' if quad not in ('RADAU-RIGHT', 'LOBATTO') else quad
+        sw_params['quad_type'] = quad
+        prob = {'class': 'MassDahlquist', 'params': {'n': r.randint(1, 4), 'seed': r.randrange(1000), 'stiffness': 10 ** r.uniform(-0.5, 1.0)}}
+        sweeper = 'imex_1st_order_mass'
+        sw_params['QI'] = r.choice(['IE', 'LU'])
+        sw_params['QE'] = r.choice(QE_EXPL)
+        rate = 8.0
+    elif kind == 'dahlquist':
         n = r.randint(1, 4)
         lam = [[-10 ** r.uniform(-1, 1.3), r.uniform(-3, 3)] for _ in range(n)]
         prob = {'class': 'testequation0d', 'params': {'lambdas': lam, 'u0': 1.0}}
@@ -118,6 +128,12 @@ def gen_config(r, allow_faults=True, fixed_step=False):
         'run': {'t0': r.choice([0.0, 0.0, 0.5]), 'Tend': None, 'u0': 'exact'},
     }
     cfg['run']['Tend'] = cfg['run']['t0'] + nblocks * P * dt * r.choice([1.0, 1.0, 0.8])
+    if kind == 'mass':
+        sw_params.pop('do_coll_update', None)
+        cfg['level']['residual_type'] = 'full_abs'  # the mass sweeper always reports the maximum over the nodes
+        cfg['controller']['predict_type'] = None
+        cfg['transfer'] = None
+        cfg['run']['u0'] = 'exact'
     if sw_params['initial_guess'] == 'zero' and cfg['level']['residual_type'].endswith('rel'):
         # a later step receives the all-zero end value of its predecessor at iteration 0 and the relative residual divides
         # by |u0| = 0 (ZeroDivisionError in Sweeper.compute_residual): outside the property, avoided, noted in DESIGN
@@ -197,9 +213,16 @@ class Shadow:
         U = [np.array(L.u[m]).reshape(-1) for m in range(M + 1)]
         Fv = [self.F(lvl, U[m], L.time + L.dt * nodes[m - 1]) for m in range(1, M + 1)]
         norms, scales = [], []
+        Pm = self.prob(lvl)
+        mass = self.cfg['sweeper']['class'] == 'imex_1st_order_mass'
         for m in range(M):
-            acc = U[0] - U[m + 1]
-            sc = np.abs(U[0]) + np.abs(U[m + 1])
+            if mass:
+                # mass-matrix form (level 0): M (u0 - u_m) + dt * sum_j Q_mj F_j
+                acc = np.asarray(Pm.M @ (U[0] - U[m + 1]))
+                sc = np.abs(Pm.M) @ (np.abs(U[0]) + np.abs(U[m + 1]))
+            else:
+                acc = U[0] - U[m + 1]
+                sc = np.abs(U[0]) + np.abs(U[m + 1])
             for j in range(M):
                 acc = acc + L.dt * Q[m, j] * Fv[j]
                 sc = sc + abs(L.dt * Q[m, j]) * np.abs(Fv[j])
